@@ -12,7 +12,11 @@ Real `Wallet` / `Account` / `WalletStorage` on temp files.  Oracle clauses (DESI
       wallet file (raw bytes and decoded JSON strings) contains none of: the mnemonic, any 4
       consecutive words of it, the xprv string, the raw private key in hex.
   E4  unpack(pw, pack(pw)) == to_dict() JSON; a wrong password never returns data (real scrypt
-      blobs, plus reference-built blobs with cheap scrypt parameters for volume).
+      blobs, plus reference-built blobs with cheap scrypt parameters for volume).  Payloads written
+      by somebody else (reference-built blobs whose header names other legal scrypt cost parameters
+      than Wallet.pack's, cheaper and costlier) open with their password through Wallet.unpack and
+      Wallet.merge (sync_apply / wallet_import), the merged accounts carry the payload's seeds, keys
+      and addresses, and the merged wallet obeys E3 and E1 after save / reload / unlock.
   F1  atomic save (crash engine): a forked child saves version B over a complete file A (or over
       "no file") and dies before every LINE event of WalletStorage.write, before/after every
       file-system call of the save, and after a torn write of a prefix; the wallet path is then
@@ -44,7 +48,9 @@ RULE = ('roundtrip: one case = one wallet (account set drawn from seeded / key-o
         'fixed boundary classes + random) driven through encrypt/save/reload/unlock/lock/add-account/re-encrypt; every '
         'wrong-password trial is an evaluation (distinct = distinct (wallet, stage, password); near misses and every 4th '
         'bulk trial are also classified by the reference as padding-valid-by-chance or not); pack: real scrypt '
-        'blobs; packfast: reference-built blobs (scrypt N<=16) x thousands of wrong passwords; crash: one case = '
+        'blobs; packfast: reference-built blobs (scrypt N<=16) x thousands of wrong passwords; packforeign: one case = one '
+        'reference-built blob with scrypt cost parameters from a fixed list (own, cheaper, up to 4x the memory / work of '
+        'Wallet.pack\'s) x unpack + merge into a wallet encrypted on disk; crash: one case = '
         '(wallet shape, scenario, operation), every crash point inside is an evaluation (distinct = distinct point). '
         'non-trivial = every evaluation except wallets without any secret')
 ASSUMPTIONS = [
@@ -70,6 +76,9 @@ REQUIRED_HITS = ['F1.later_save_after_interrupted_one',
     'E2.after_lock_checked',
     'E3.checked', 'E3.needle_selfcheck',
     'E4.roundtrip_checked', 'E4.wrong_checked', 'E4.fast_wrong_checked', 'E4.fast_valid_padding_by_chance',
+    'E4.foreign_right_checked', 'E4.foreign_wrong_checked', 'E4.foreign_merge_checked', 'E4.foreign_merge_wrong_checked',
+    'E4.foreign.own-cost-parameters', 'E4.foreign.cheaper-than-own-parameters', 'E4.foreign.more-memory-than-own-parameters',
+    'E4.foreign.more-work-than-own-parameters', 'E1.merged_wallet_reload_unlock_checked',
     'F1.line_points', 'F1.call_points', 'F1.short_write_points', 'F1.saw_old', 'F1.saw_new', 'F1.parse_checked',
     'acct.seeded', 'acct.keyonly', 'acct.watch', 'acct.pem', 'acct.single-address', 'acct.regtest',
     'pw.ascii', 'pw.nfc', 'pw.nfd', 'pw.emoji', 'pw.rtl', 'pw.whitespace', 'pw.one-char', 'pw.long-10k',
@@ -1012,6 +1021,152 @@ def exec_packfast(rec, case):
         env.close()
 
 
+# ------------------------------------------------------------------------------ family: packforeign
+# The sync blob names its own scrypt cost parameters (b's:<N>:<r>:<p>:'); Wallet.pack always writes OWN_PARAMS, but the payload
+# handed to sync_apply / wallet_import comes from the sync server, i.e. from another client or from a later version that raised the
+# work factor.  "All sync payloads" therefore includes every well-formed blob whose parameters are legal scrypt parameters
+# (RFC 7914 section 2: N a power of two > 1 and < 2^(128*r/8), p <= (2^32-1)*32/(128*r)); the ones below stay within what a desktop
+# client would pick (at most 64 MiB of work memory in the quick tier, 128 MiB in the thorough one).
+OWN_PARAMS = (8192, 16, 1)
+FOREIGN_PARAMS = [(8192, 16, 1), (1024, 8, 1), (16384, 8, 1), (8192, 16, 2), (16384, 16, 1), (32768, 8, 1), (8192, 32, 1),
+                  (65536, 8, 1), (4096, 8, 1), (16384, 8, 4), (32768, 16, 1), (2048, 16, 3)]
+FOREIGN_PARAMS_THOROUGH = [(131072, 8, 1), (65536, 4, 1), (4096, 64, 1), (16, 1, 1), (2, 8, 1), (16384, 16, 2), (65536, 8, 2)]
+
+
+def params_class(n, rr, p):
+    """relative to what Wallet.pack writes: work memory ~ 128*r*N bytes, work ~ N*r*p"""
+    if (n, rr, p) == OWN_PARAMS:
+        return 'own-cost-parameters'
+    if n * rr > OWN_PARAMS[0] * OWN_PARAMS[1]:
+        return 'more-memory-than-own-parameters'
+    if n * rr * p > OWN_PARAMS[0] * OWN_PARAMS[1] * OWN_PARAMS[2]:
+        return 'more-work-than-own-parameters'
+    return 'cheaper-than-own-parameters'
+
+
+def exec_packforeign(rec, case):
+    env = Env()
+    try:
+        run_async(_packforeign(rec, env, case))
+    finally:
+        env.close()
+
+
+async def _packforeign(rec, env, case):
+    """E4 for payloads this library did not write itself, through both entry points of the daemon: Wallet.unpack and Wallet.merge
+    (sync_apply / wallet_import) into a wallet that is encrypted on disk; then E3 + E1 for the merged wallet."""
+    from lbry.wallet import Wallet
+    pwcls = case['pw']
+    pw = make_password(pwcls, case['sub'])
+    specs = [dict(s) for s in case['accounts']]
+    n, rr, p = case['scrypt']
+    pcls = params_class(n, rr, p)
+    ctx = (f'reference-built blob, scrypt N={n} r={rr} p={p} ({pcls}, {128 * rr * n >> 20} MiB), password class {pwcls}, '
+           f"accounts {[s['kind'] for s in specs]}")
+    casekey = f"pfg{case['sub']}|{n}:{rr}:{p}|{pwcls}"
+    # ---- the wallet on the "other device" and its payload
+    remote, _ = env.new_wallet(None, name='Wallet on the other device')
+    raccs = [env.add_account(remote, account_dict(s)) for s in specs]
+    remote.preferences['shared'] = {'tags': ['a', '\xfc', '\U0001f600'], 'n': case['sub'] % 97}
+    snaps = [snapshot(a) for a in raccs]
+    expected = canonical(remote)
+    blob = ref.pack_json(pw, expected, random.Random(case['sub']).randbytes(16), n, rr, p)
+    rec.case(casekey, sample={'packforeign': ctx})
+    rec.hit('pw.' + pwcls)
+    witness = {'password': pw, 'scrypt': [n, rr, p], 'blob': blob.decode()[:600]}
+    # ---- Wallet.unpack: the right password, then other ones
+    try:
+        got = Wallet.unpack(pw, blob)
+    except Exception as e:  # noqa
+        rec.violation(f'C13/E4/foreign-blob/unpack-right-password-raises/{pcls}/{type(e).__name__}',
+                      f'unpack of a well-formed blob with the right password raised {e!r} ({ctx})', witness)
+        return
+    if got != expected:
+        rec.violation(f'C13/E4/foreign-blob/unpack-differs/{pcls}', f'unpack of a well-formed blob differs from its payload ({ctx})', witness)
+        return
+    rec.hit('E4.foreign_right_checked')
+    rec.hit('E4.foreign.' + pcls)
+    wrong = [wp for wp in near_misses(pw) if not kdf_equivalent(wp, pw)]
+    k0 = case['sub'] % max(1, len(wrong) - case['wrong'])
+    for wp in wrong[k0:k0 + case['wrong']]:
+        rec.case(f'{casekey}|{wp}')
+        try:
+            data = Wallet.unpack(wp, blob)
+        except Exception as e:  # noqa  (any refusal is fine: "never returns data")
+            rec.hit('E4.foreign_wrong_checked')
+            rec.log('E4.foreign_wrong_password_raises_' + type(e).__name__)
+            continue
+        rec.hit('E4.foreign_wrong_checked')
+        rec.violation(f'C13/E4/wrong-password-returns-data/foreign-blob/{pcls}',
+                      f'unpack({wp[:40]!r}, blob for {pw[:40]!r}) returned {str(data)[:80]!r} ({ctx})',
+                      dict(witness, wrong_password=wp, returned=data))
+        return
+    # ---- Wallet.merge into a local wallet that is encrypted on disk (same password as the payload's, or its own)
+    pwl = pw if case['sub'] % 2 else 'local wallet password ' + pw[:12]
+    local, path = env.new_wallet('local.json', name='Local wallet')
+    lspec = {'kind': 'seeded', 'sub': (case['sub'] * 41 + 3) % (2 ** 40)}
+    lacc = env.add_account(local, account_dict(lspec))
+    lsnap = snapshot(lacc)
+    local.encrypt(pwl)
+    def state():
+        return json.dumps(local.to_dict(), sort_keys=True)
+    before = state()
+    wp = wrong[(k0 + case['wrong']) % len(wrong)]
+    rec.case(f'{casekey}|merge|{wp}')
+    try:
+        res = local.merge(env.manager, wp, blob.decode())
+    except Exception as e:  # noqa
+        rec.log('E4.foreign_merge_wrong_password_raises_' + type(e).__name__)
+        if state() != before:
+            rec.log('E4.refused_merge_changed_the_wallet')
+    else:
+        rec.violation(f'C13/E4/wrong-password-returns-data/merge/{pcls}',
+                      f'merge({wp[:40]!r}, blob for {pw[:40]!r}) was accepted: {str(res)[:80]!r} ({ctx})',
+                      dict(witness, wrong_password=wp))
+        return
+    rec.hit('E4.foreign_merge_wrong_checked')
+    try:
+        added, merged = local.merge(env.manager, pw, blob.decode())
+    except Exception as e:  # noqa
+        rec.violation(f'C13/E4/foreign-blob/merge-right-password-raises/{pcls}/{type(e).__name__}',
+                      f'merge (sync_apply) of a well-formed blob with the right password raised {e!r} ({ctx})', witness)
+        return
+    if merged or len(added) != len(snaps) or local.accounts[1:] != list(added):
+        rec.violation(f'C13/E4/foreign-blob/merge-account-count-differs/{pcls}',
+                      f'merge added {len(added)} and merged {len(merged)} accounts, the payload holds {len(snaps)} new ones; '
+                      f'the wallet now has {len(local.accounts)} ({ctx})', witness)
+        return
+    specs_all, snaps_all = [lspec] + specs, [lsnap] + snaps
+    for i, (a, s) in enumerate(zip(added, snaps)):
+        try:
+            now = snapshot(a)
+        except Exception as e:  # noqa
+            rec.violation(f'C13/E4/foreign-blob/merge-differs/snapshot-raises-{type(e).__name__}',
+                          f'merged account #{i} ({specs[i]["kind"]}) cannot be read back: {e!r} ({ctx})', witness)
+            return
+        for field in ('seed', 'xprv', 'priv_hex', 'xpub', 'id', 'addresses', 'channel_keys', 'generator'):
+            if now[field] != s[field]:
+                rec.violation(f'C13/E4/foreign-blob/merge-differs/{field}',
+                              f'account #{i} ({specs[i]["kind"]}) added by merge has {field} = {str(now[field])[:80]!r}, the payload '
+                              f'was made from {str(s[field])[:80]!r} ({ctx})',
+                              dict(witness, account=i, field=field, now=now[field], before=s[field]))
+                return
+    rec.hit('E4.foreign_merge_checked')
+    # ---- what sync_apply does next: save.  Encryption is on and the password is set: E3 for old and new secrets, then E1
+    needles = needles_for(snaps_all)
+    local.save()
+    check_e3(rec, path, needles, 'after-merge-save', ctx)
+    try:
+        w2 = env.reload(path)
+    except Exception as e:  # noqa
+        rec.violation(f'C13/E1/reload-raises/{type(e).__name__}', f'Wallet.from_storage after merge + save raised {e!r} ({ctx})', {})
+        return
+    if not await unlock_right(rec, w2, pwl, 'after-merge-save-reload', ctx, {'wordlist'}):
+        return
+    if compare_snaps(rec, w2.accounts, snaps_all, 'after-merge-save-reload-unlock', ctx, specs_all):
+        rec.hit('E1.merged_wallet_reload_unlock_checked')
+
+
 # ------------------------------------------------------------------------------ family: crash (F1)
 CRASH_OPS = ('save-plain', 'save-encrypted', 'save-locked', 'encrypt')
 CRASH_DELTAS = ('add-account', 'drop-account', 'rename-short', 'preference')
@@ -1351,8 +1506,16 @@ def gen_cases(rng, tier, shard, nshards):
     fixed.append(('lone-surrogate', ['seeded'], 7300))
     fixed_list = [{'fam': 'roundtrip', 'pw': cls, 'sub': sub, 'accounts': specs_for(names, sub), 'wrong': nwrong}
                   for cls, names, sub in fixed if mine()]
+    # sync payloads written by somebody else: every parameter set once, with a rotating password class and account shape
+    foreign_params = FOREIGN_PARAMS if quick else FOREIGN_PARAMS + FOREIGN_PARAMS_THOROUGH
+    foreign_list = []
+    for i, prm in enumerate(foreign_params):
+        if mine():
+            foreign_list.append({'fam': 'packforeign', 'pw': classes[(i * 7 + 2) % len(classes)], 'sub': 7600 + i, 'scrypt': list(prm),
+                                 'accounts': specs_for(secret_shapes[(i * 5 + 1) % len(secret_shapes)], 7600 + i),
+                                 'wrong': 2 if quick else 6})
     # ---- random material of this shard (drawn completely before anything is yielded)
-    rand_rt, rand_pf, rand_pack = [], [], []
+    rand_rt, rand_pf, rand_pack, rand_foreign = [], [], [], []
     for j in range(1 if quick else 60):
         sub = rng.getrandbits(36)
         names = [rng.choice(kinds) for _ in range(rng.choice([1, 1, 2, 3, 4, 5]))]
@@ -1366,14 +1529,19 @@ def gen_cases(rng, tier, shard, nshards):
     for j in range(0 if quick else 25):
         sub = rng.getrandbits(36)
         rand_pack.append({'fam': 'pack', 'pw': rng.choice(classes), 'sub': sub, 'accounts': specs_for(rng.choice(SHAPES), sub), 'wrong': 8})
+    for j in range(0 if quick else 12):
+        sub = rng.getrandbits(36)
+        rand_foreign.append({'fam': 'packforeign', 'pw': rng.choice(classes), 'sub': sub, 'scrypt': list(rng.choice(foreign_params)),
+                             'accounts': specs_for(rng.choice(secret_shapes), sub), 'wrong': 4})
     # ---- order: forks first (no loop has existed yet), then the cheap families, then the wallets
     yield from crash_list
     yield from rand_pf[:1]
     yield from pack_list
+    yield from foreign_list
     yield from odd_list
     yield from fixed_list
     # interleave the random families so that a budget cut leaves all of them represented
-    rest = [rand_rt, rand_pf[1:], rand_pack]
+    rest = [rand_rt, rand_pf[1:], rand_pack, rand_foreign]
     while any(rest):
         for lst in rest:
             if lst:
@@ -1402,5 +1570,7 @@ def execute(rec, case):
         exec_pack(rec, case)
     elif fam == 'packfast':
         exec_packfast(rec, case)
+    elif fam == 'packforeign':
+        exec_packforeign(rec, case)
     else:
         raise ValueError(fam)
